@@ -16,6 +16,7 @@ func readBitflagExpr(tr *tokenReader, previousOptions []EnumOption, uinttype boo
 	if err != nil {
 		return 0, 0, err
 	}
+	parsed = applyBitflagPrecedence(parsed)
 	val, uval, err := evaluateBitflagExpr(parsed, previousOptions, uinttype, bitsize)
 	if err != nil {
 		return 0, 0, err
@@ -129,4 +130,55 @@ func parseParenExpr(j int, tokens []token) (node bitFlagExprNode, newI int, err 
 	return parenNode{
 		inner: inner,
 	}, j, nil
+}
+
+// bitflagPrecedence ranks the binary operators the way C# (the language of the reference compiler),
+// C and Java do: shifts bind tighter than &, which binds tighter than |.
+func bitflagPrecedence(op tokenKind) int {
+	switch op {
+	case tokenKindDoubleCaretLeft, tokenKindDoubleCaretRight:
+		return 3
+	case tokenKindAmpersand:
+		return 2
+	}
+	return 1
+}
+
+// applyBitflagPrecedence regroups the right-leaning tree parseBitflagExpr builds, so that
+// 16 >> 1 >> 1 is (16 >> 1) >> 1 and 4 & 6 | 1 is (4 & 6) | 1: operators group by
+// bitflagPrecedence, and operators of equal precedence group left to right.
+func applyBitflagPrecedence(n bitFlagExprNode) bitFlagExprNode {
+	switch v := n.(type) {
+	case parenNode:
+		return parenNode{inner: applyBitflagPrecedence(v.inner)}
+	case binOpNode:
+		// flatten the chain a op (b op (c ...)) into operands and operators
+		var operands []bitFlagExprNode
+		var ops []tokenKind
+		var cur bitFlagExprNode = v
+		for {
+			b, ok := cur.(binOpNode)
+			if !ok {
+				operands = append(operands, applyBitflagPrecedence(cur))
+				break
+			}
+			operands = append(operands, applyBitflagPrecedence(b.lhs))
+			ops = append(ops, b.op)
+			cur = b.rhs
+		}
+		next := 0 // operators consumed so far == index of the next operand
+		var climb func(minPrec int) bitFlagExprNode
+		climb = func(minPrec int) bitFlagExprNode {
+			lhs := operands[next]
+			for next < len(ops) && bitflagPrecedence(ops[next]) >= minPrec {
+				op := ops[next]
+				next++
+				rhs := climb(bitflagPrecedence(op) + 1)
+				lhs = binOpNode{lhs: lhs, rhs: rhs, op: op}
+			}
+			return lhs
+		}
+		return climb(0)
+	}
+	return n
 }
